@@ -14,6 +14,7 @@ import dns.rdataclass
 import dns.rdatatype
 import dns.renderer
 import dns.rrset
+import dns.tsig
 import dns.update
 import dns.rdtypes.ANY.NS
 import dns.rdtypes.ANY.RRSIG
@@ -216,6 +217,29 @@ def low_level(script, rel, max_size=65535, entry="rrset"):
                        "osize": osize, "tsize": 0, "res": res, **state(r)})
     r.write_header()
     ev.append({"op": "hdr", **state(r)})
+    if h.get("tsig"):
+        # low-level signing (add_tsig, or add_multi_tsig for the other entry-point mode) with a fixed clock
+        key = dns.tsig.Key(mkname([[107], [101, 120]], False), b"0123456789abcdef", "hmac-sha256")
+        real_time = dns.renderer.time
+
+        class _T:
+            @staticmethod
+            def time():
+                return 1600000000.0
+        dns.renderer.time = _T
+        try:
+            if entry == "rdataset":
+                res, exc = call(r.add_multi_tsig, None, key.name, key, 300, h["id"], 0, b"", b"", key.algorithm)
+            else:
+                res, exc = call(r.add_tsig, key.name, key, 300, h["id"], 0, b"", b"", key.algorithm)
+        finally:
+            dns.renderer.time = real_time
+        w = r.get_wire()
+        mac = list(w[-38:-6]) if res == "ok" else [0] * 32      # MAC as found in the octets written (observed value)
+        ev.append({"op": "tsig", "key": [[107], [101, 120]], "alg": [list(b"hmac-sha256")], "t48": [0, 0, 95, 94, 16, 0],
+                   "fudge": 300, "origid": h["id"], "mac": mac, "res": res, **state(r)})
+        r.write_header()
+        ev.append({"op": "hdr", **state(r)})
     ev.append({"op": "wire", "wire": list(r.get_wire())})
     return ev
 
